@@ -13,6 +13,7 @@ import XotModel.Driver.Axes
 import XotModel.Driver.Output
 import XotModel.Driver.Scope
 import XotModel.Driver.Ffixed
+import XotModel.Driver.Html5
 import XotModel.Driver.Fmap
 import XotModel.Driver.Parse
 import XotModel.Driver.Fclone
@@ -29,6 +30,7 @@ def dispatch (st : DState) (line : String) : DState × String :=
   | "axes" :: rest => (st, (handleAxes rest).getD "bad-request")
   | "ser" :: rest => (st, (handleSer st rest).getD "bad-request")
   | "scope" :: rest => (st, (handleScope st rest).getD "bad-request")
+  | "html" :: rest => (st, (handleHtml st rest).getD "bad-request")
   | "build" :: rest => (st, (handleBuild st rest).getD "bad-request")
   | _ => (st, "bad-request")
 
